@@ -61,6 +61,7 @@ class Driver:
                      Options.TARGET.value: -np.inf, Options.DEBUG.value: False}
         it0 = Interpolation(self.pb, dict(self.opts))
         self.vscale = float(init.get("vscale", 1.0))  # all function values are multiplied by it
+        self.rad = float(init.get("radius", 1.0))  # size of the initial set; the rules' offsets are multiples of it
         vals = [v * self.vscale for v in init["vals"]]
         self.rec = []  # the values fed for each interpolation index
         for k in range(npt):
@@ -161,14 +162,14 @@ class Driver:
         if e < 0:
             # nudge: the replaced point itself moves by 2^e (the set, hence its conditioning, barely changes,
             # but the value recorded for it does)
-            xn = m.interpolation.point(k) + offs * 2.0 ** e
+            xn = m.interpolation.point(k) + offs * 2.0 ** e * self.rad
             self.out.label("nudge")
         elif e > 0:
             if j == k:
                 j = (j + 1) % self.npt
-            xn = m.interpolation.point(j) + offs * 2.0 ** (-e)
+            xn = m.interpolation.point(j) + offs * 2.0 ** (-e) * self.rad
         else:
-            xn = m.interpolation.point(j) + 2.0 * offs
+            xn = m.interpolation.point(j) + 2.0 * offs * self.rad
         ratio, Pn = self.exact_ratio(k, xn)
         if ratio is None or ratio == 0:
             self.counts["skipped"] += 1
@@ -427,7 +428,10 @@ class Driver:
                 # exact for a quadratic: finite differences of the gradient / value
                 xc = P.mean(axis=0)
                 fd = m.fun_grad(xc + v) - m.fun_grad(xc)
-                tolg = 1e3 * EPS * n * npt * (hmag * (np.linalg.norm(v) + np.linalg.norm(xc - m.interpolation.x_base) + diam)
+                # (the probe xc + v is formed in absolute coordinates: its rounding, eps*|xc|, is multiplied by
+                # the size of the Hessian, which is large for a tiny set far from the origin)
+                tolg = 1e3 * EPS * n * npt * (hmag * (np.linalg.norm(v) + np.linalg.norm(xc - m.interpolation.x_base) + diam
+                                                       + np.linalg.norm(xc) + np.linalg.norm(m.interpolation.x_base))
                                                + float(np.max(np.abs(m._fun._grad))))
                 if not (np.max(np.abs(fd - hp)) <= tolg):
                     self.out.fail("C13.views", "grad(x+v)-grad(x) and hess_prod(v) differ by %.3g (tolerance %.3g)"
@@ -480,11 +484,12 @@ def make_machine(focus, nmax, neardeg=(0, 0, 0, 0, 20, 30, 40, -24)):
 
         @initialize(n=st.integers(1, nmax), frac=st.integers(0, 100), x0=st.lists(dy8(), min_size=5, max_size=5),
                     vals=st.lists(dy8(), min_size=42, max_size=42),
-                    vscale=st.sampled_from([1.0, 1.0, 1.0, 2.0 ** -60, 2.0 ** 40]))
-        def setup(self, n, frac, x0, vals, vscale):
+                    vscale=st.sampled_from([1.0, 1.0, 1.0, 2.0 ** -60, 2.0 ** 40]),
+                    radius=st.sampled_from([1.0, 1.0, 1.0, 2.0 ** -16, 2.0 ** -24, 2.0 ** 12]))
+        def setup(self, n, frac, x0, vals, vscale, radius):
             lo, hi = n + 1, (n + 1) * (n + 2) // 2
             npt = lo + (hi - lo) * frac // 100
-            self.init_spec = enc({"n": n, "npt": npt, "x0": x0[:n], "vals": vals, "vscale": vscale})
+            self.init_spec = enc({"n": n, "npt": npt, "x0": x0[:n], "vals": vals, "vscale": vscale, "radius": radius})
             self.drv = Driver(self.init_spec, focus)
             self.out.fails.extend(self.drv.out.fails)
             self.out.ratios.update(self.drv.out.ratios)
